@@ -9,7 +9,7 @@ from gvsim.sim import Raised, Sim, sut
 
 PROP = 'C12'
 TIERS = {'quick': {'runs': 2400, 'wall': 100}, 'thorough': {'runs': 60000, 'wall': 1500}}
-REACH = ['nondefault:actuate_door', 'nondefault:pickndrop', 'nondefault:reach_exit_memory', 'nondefault:getting_closer_shortest_path', 'nondefault:bump_into_wall', 'term_fired:reduce_all', 'exit_reached', 'knob:components_through_factories', 'knob:maze']  # probes / faults that must fire in every batch (reach gaps are reported in the evidence)
+REACH = ['nondefault:actuate_door', 'nondefault:pickndrop', 'nondefault:reach_exit_memory', 'nondefault:getting_closer_shortest_path', 'nondefault:bump_into_wall', 'term_fired:reduce_all', 'exit_reached', 'knob:components_through_factories', 'knob:maze', 'knob:generic_reduce_composite']  # probes / faults that must fire in every batch (reach gaps are reported in the evidence)
 RULE = ('one run = one client (random composition: 1-3 reward components incl. nested reduce_sum with random float '
         'parameters, a termination tree of depth <= 3; or a shipped configuration) under a seeded op list of stateful '
         'steps, functional steps, and direct component calls on (state, action, ARBITRARY next state) triples; each '
@@ -44,6 +44,10 @@ def generate(seed, run, tier):
         for wv in [spec['world']] + spec['pool_worlds']:
             if r.random() < 0.4:
                 plant_door_scene(r, wv, spec['colors'], spec['unique'], spec['types'])
+    if spec['kind'] == 'hand' and spec['env_seed'] % 4 == 0:
+        # the generic composite `reduce` with another reduction than the sum, assembled in code (YAML cannot say it)
+        spec['rewards'] = [{'name': 'reduce', 'reduction': ['max', 'min', 'first', 'last'][(spec['env_seed'] // 4) % 4], 'parts': spec['rewards']}]
+        spec.setdefault('knobs', []).append('generic_reduce_composite')
     rec['clients'] = [spec]
     n = r.randint(30, 120 if not big else 300)
 
@@ -84,7 +88,7 @@ class Rewards:
     def _probe(self, spec, v):
         n = spec['name']
         ctx = self.sim.ctx
-        if n in ('reduce_sum', 'living_reward'):
+        if n in ('reduce_sum', 'reduce', 'living_reward'):
             return
         if n in ('reduce_any', 'reduce_all', 'reach_exit', 'bump_moving_obstacle', 'bump_into_wall', 'overlap') and isinstance(v, (bool,)) or type(v).__name__ == 'bool_':
             if v:
